@@ -127,6 +127,10 @@ class HTMLParser(object):
 
     def reset(self):
         self.tree.reset()
+        # The phase objects live as long as the parser: drop whatever a
+        # previous (possibly aborted) parse left in them
+        for phase in self.phases.values():
+            phase.reset()
         self.firstStartTag = False
         self.errors = []
         self.log = []  # only used with debug mode
@@ -407,6 +411,10 @@ class Phase(object):
         self.tree = tree
         self.__startTagCache = {}
         self.__endTagCache = {}
+
+    def reset(self):
+        """Forget per-parse state (the handler caches are kept)"""
+        pass
 
     def processEOF(self):
         raise NotImplementedError
@@ -927,6 +935,9 @@ class InBodyPhase(Phase):
     def __init__(self, *args, **kwargs):
         super(InBodyPhase, self).__init__(*args, **kwargs)
         # Set this to the default handler
+        self.processSpaceCharacters = self.processSpaceCharactersNonPre
+
+    def reset(self):
         self.processSpaceCharacters = self.processSpaceCharactersNonPre
 
     def isMatchingFormattingElement(self, node1, node2):
@@ -1832,6 +1843,10 @@ class InTableTextPhase(Phase):
 
     def __init__(self, *args, **kwargs):
         super(InTableTextPhase, self).__init__(*args, **kwargs)
+        self.originalPhase = None
+        self.characterTokens = []
+
+    def reset(self):
         self.originalPhase = None
         self.characterTokens = []
 
